@@ -90,11 +90,11 @@ func (r *Run) Cap(s string) {
 	r.R.Exhaustive = false
 }
 
-func (r *Run) Eval()              { r.R.Evaluations++ }
-func (r *Run) Count(k string)     { r.R.Counters[k]++ }
-func (r *Run) Add(k string, n int) { r.R.Counters[k] += n }
-func (r *Run) Outcome(k string)   { r.R.Outcomes[k]++ }
-func (r *Run) Note(s string)      { r.R.Notes = append(r.R.Notes, s) }
+func (r *Run) Eval()                 { r.R.Evaluations++ }
+func (r *Run) Count(k string)        { r.R.Counters[k]++ }
+func (r *Run) Add(k string, n int)   { r.R.Counters[k] += n }
+func (r *Run) Outcome(k string)      { r.R.Outcomes[k]++ }
+func (r *Run) Note(s string)         { r.R.Notes = append(r.R.Notes, s) }
 func (r *Run) Bound(k string, v any) { r.R.Bounds[k] = v }
 
 func h12(s string) string {
